@@ -53,7 +53,9 @@ def models():
 def cfg_desc(mi, ci):
     mc = {'port': 'p', 'claim': 'Claim', 'grant': 'Ok', 'release': 'Release'} if mi == 1 else None
     if ci == 0:
-        return {'provides': ['NONE', 'ALL'], 'requires': [['r'], 'REMAINING'], 'fac': 'create', 'prefix': '',
+        # models 0 and 3: BOTH requires selections are explicit name sets
+        return {'provides': ['NONE', 'ALL'], 'requires': [['r'], ['r2']] if mi in (0, 3) else [['r'], 'REMAINING'],
+                'fac': 'create', 'prefix': '',
                 'suffix': 'Shell', 'mc': mc, 'copyright': 'c\nd', 'creator': 'me'}
     if ci == 1:
         prov = ['NONE', 'ALL'] if mi == 1 else ['ALL', 'NONE']
@@ -85,16 +87,17 @@ class World:
         self.fcts = [B.parse_model(m) for m in self.models]
         self.names_r = {'r'}
         self.names_rz = {'r', 'zz'}
+        self.names_r2 = {'r2'}
         sel = {'ALL': PortSelect(PortWildcard.ALL), 'NONE': PortSelect(PortWildcard.NONE),
                'REMAINING': PortSelect(PortWildcard.REMAINING), 'r': PortSelect(self.names_r),
-               'rz': PortSelect(self.names_rz)}
+               'rz': PortSelect(self.names_rz), 'r2': PortSelect(self.names_r2)}
         self.sel = sel
 
         def side(desc):
             key = json.dumps(desc)
             if key not in self.sides:
                 def pick(d):
-                    return d if isinstance(d, str) else ('rz' if len(d) > 1 else 'r')
+                    return d if isinstance(d, str) else ('rz' if len(d) > 1 else d[0])
                 self.sides[key] = PortsSemanticsCfg(sts=sel[pick(desc[0])], mts=sel[pick(desc[1])])
             return self.sides[key]
         self.sides = {}
@@ -127,6 +130,7 @@ class World:
         return {'fcts': self.fcts, 'cfgs': [self.cfgs[k] for k in sorted(self.cfgs)],
                 'portscfgs': [self.portscfgs[k] for k in sorted(self.portscfgs)],
                 'sides': [self.sides[k] for k in sorted(self.sides)], 'names_r': self.names_r, 'names_rz': self.names_rz,
+                'names_r2': self.names_r2, 'selects': [self.sel[k] for k in sorted(self.sel)],
                 'prefixes': [self.prefixes[k] for k in sorted(self.prefixes)],
                 'encnames': [self.encnames[k] for k in sorted(self.encnames)]}
 
